@@ -6,7 +6,8 @@ ASSUMPTIONS = [
     "theorems are about one call of the model's send_tx_queue / rto_branch / send_data, Recovery::on_ack and Segments from ANY "
     "state; that the whole poll is the composition the model says is the vsock correspondence, not a theorem",
     "assumed-and-monitored: RTO within [200 ms, 60 s] on every fingerprint (c06_backoff_ok), retransmit counts <= cap (c06_cap_ok), "
-    "joint ring/table invariant removed_offset = bytes truncated (c06_joint_ok, until the inbox closes: finding T1)",
+    "joint ring/table invariant removed_offset = bytes truncated (c06_joint_ok, after every Pending poll of the trace, the "
+    "polls after the message channel closed included: finding T1 = D17 is repaired)",
     "payload bytes are compared by hash in the correspondence; the stability predicate sees payload sizes only",
 ]
 RULE = c05.RULE
